@@ -71,6 +71,11 @@ def make_cases(tier, seed, n_random=None):
                                                               p_out_eps=0.5 if hot else 0.2, n_in_eps=2, p_epseps=0.35), "xy"))
         for tn, t, B in ts:
             cases.append(dict(kind="fst", name=f"{name}*{tn}", g=g, t=t, B=B, L=L if len(t.states) <= 3 else L - 1, srs=srs, rename=rename))
+        if corpus and i % 2 == 0 and ts:
+            # token-id vocabularies on both tapes: 0 is a falsy symbol but NOT epsilon (strengthened after seeded change C03-2)
+            tn, t, B = ts[0]
+            gi, ti, Bi = _ids_case(g, t, B)
+            cases.append(dict(kind="fst", name=f"{name}*{tn}#ids", g=gi, t=ti, B=Bi, L=L if len(t.states) <= 3 else L - 1, srs=srs, rename=rename))
         # acceptor operand
         ms = [(f"acc{seed}_{i}", dom_fst.rand_wfsa(rng, rng.randint(1, qmax), V, 6, p_eps=0.3))]
         if corpus:
@@ -82,6 +87,15 @@ def make_cases(tier, seed, n_random=None):
             cases.append(dict(kind="string", name=name, g=g, L=2 if quick else 3, srs=srs, rename=rename))
             cases.append(dict(kind="trunc", name=name, g=g, ns=[0, 1, 2, 3], L=L, srs=srs, rename=rename))
     return cases
+
+
+def _ids_case(g, t, B):
+    vin = {a: k for k, a in enumerate(sorted(set(g.V) | {ab[0] for _, ab, _, _ in t.arcs if ab[0] != ""}))}
+    vout = {b: k for k, b in enumerate(sorted(set(B) | {ab[1] for _, ab, _, _ in t.arcs if ab[1] != ""}))}
+    gi = type(g)(g.S, frozenset(vin[a] for a in g.V), [(w, h, tuple(vin.get(y, y) if y in g.V else y for y in b)) for w, h, b in g.rules])
+    ti = type(t)(t.states, dict(t.start), dict(t.stop), [(i, (vin.get(a, a) if a != "" else "", vout.get(b, b) if b != "" else ""), j, w)
+                                                         for i, (a, b), j, w in t.arcs])
+    return gi, ti, [vout[b] for b in sorted(B)]
 
 
 # ------------------------------------------------------------------ helpers
